@@ -154,7 +154,9 @@ func newPlaceholderScanner(repo string) *placeholderScanner {
 	}
 	sc.entries = append(sc.entries, placeholderEntry{Text: "unknown", Word: true})
 	sc.Sources = append(sc.Sources, `: bare fall-back word "unknown" (return "unknown" in the type formatters)`)
-	sort.Slice(sc.legit, func(i, j int) bool { return len(sc.legit[i]) > len(sc.legit[j]) || len(sc.legit[i]) == len(sc.legit[j]) && sc.legit[i] < sc.legit[j] })
+	sort.Slice(sc.legit, func(i, j int) bool {
+		return len(sc.legit[i]) > len(sc.legit[j]) || len(sc.legit[i]) == len(sc.legit[j]) && sc.legit[i] < sc.legit[j]
+	})
 	return sc
 }
 
